@@ -993,7 +993,7 @@ theorem gen_other_methods :
       PW.Gen.PolyOps.flippedWrapper = "np.flipud" ∧
       PW.Gen.PolyOps.joinEmptyLhs = "len(polylines)" ∧
       PW.Gen.PolyOps.joinClosedRefusal = "any([polyline.is_closed for polyline in polylines])" ∧
-      PW.Gen.PolyOps.joinSrc = "cls(np.vstack([polyline.v for polyline in polylines]), is_closed=is_closed)" ∧
+      PW.Gen.PolyOps.joinSrc = "cls(_vcat([polyline.v for polyline in polylines]), is_closed=is_closed)" ∧
       PW.Gen.PolyOps.indexOfVertexAtol = (1 : Rat) / 100000000 ∧
       PW.Gen.PolyOps.indexOfVertexSrc = "_only(np.isclose(-point + self.v, 0, atol=atol).all(axis=1).nonzero())[0]" ∧
       PW.Gen.PolyOps.indexOfVertexPick = 0 ∧
